@@ -317,9 +317,61 @@ def register_umis():
 UMIS_KEYS = register_umis()
 
 
+def bounded_umis_native():
+    """the real Umis in floating point on the inputs the reals model cannot distinguish: identical orientations,
+    symmetry-equivalent ones, exact and near half turns (cosines that round just outside [-1,1])"""
+    import numpy as np
+    from xfab import symmetry
+    from pyvc.engine import random_rotation, _axis_angle
+
+    def f(rng):
+        cs = rng.randrange(1, 8)
+        rots = np.asarray(symmetry.rotations(cs))
+        U1 = np.array(random_rotation(rng))
+        kind = rng.randrange(5)
+        k = rng.randrange(len(rots))
+        if kind == 0:
+            U2 = U1.copy()
+        elif kind == 1:
+            U2 = U1.dot(rots[k])
+        elif kind == 2:
+            ax = rng.choice([(1, 0, 0), (0, 1, 0), (0, 0, 1), (1, 1, 0), (1, 1, 1), (rng.gauss(0, 1), rng.gauss(0, 1), rng.gauss(0, 1) + 1e-3)])
+            U2 = U1.dot(np.array(_axis_angle(ax, np.pi - rng.choice([0.0, 0.0, 1e-9, 1e-7])))).dot(rots[k])
+        else:
+            U2 = np.array(random_rotation(rng))
+        t = np.asarray(symmetry.Umis(U1, U2, cs), float)
+        bad = {}
+        if t.shape != (len(rots), 2):
+            bad['shape'] = list(t.shape)
+        elif not np.all(np.isfinite(t)):
+            bad['non_finite_rows'] = int(np.sum(~np.isfinite(t[:, 1])))
+        else:
+            if t[:, 1].min() < 0 or t[:, 1].max() > 180:
+                bad['angle_out_of_range'] = [float(t[:, 1].min()), float(t[:, 1].max())]
+            if list(t[:, 0]) != list(range(len(rots))):
+                bad['index_column'] = t[:, 0].tolist()
+            if kind in (0, 1) and t[:, 1].min() > 1e-4:
+                bad['no_zero_for_equivalent_orientations'] = float(t[:, 1].min())
+            Q = np.array(random_rotation(rng))
+            m = rng.randrange(len(rots))
+            ref = np.sort(t[:, 1])
+            for nm, (A, B_) in (('common_rotation', (Q.dot(U1), Q.dot(U2))), ('equivalent_U2', (U1, U2.dot(rots[m]))),
+                                ('equivalent_U1', (U1.dot(rots[m]), U2)), ('swapped', (U2, U1))):
+                o = np.asarray(symmetry.Umis(A, B_, cs), float)
+                if o.shape != t.shape or not np.all(np.isfinite(o)) or np.abs(np.sort(o[:, 1]) - ref).max() > 1e-4:
+                    bad['multiset_changes_under_' + nm] = True
+        if bad:
+            bad.update({'crystal_system': cs, 'U1': U1.tolist(), 'U2': U2.tolist(), 'case': ['identical', 'equivalent', 'half_turn', 'random', 'random'][kind]})
+            return bad
+    return f
+
+
 def units(tier):
     from pyvc.engine import Rot, Mat, Real
     us = [SymmetryUnit()]
+    us.append(BoundedUnit('symmetry.Umis_on_float_rotations', bounded_umis_native(), 400, 10000,
+                          'Umis in floating point: identical / symmetry-equivalent / half-turn / random pairs, all 7 systems: finite, '
+                          'angles in [0,180], index column, zero present for equivalent pairs, multiset invariances to 1e-4 deg'))
     for k in UMIS_KEYS:
         us.append(FuncUnit('symmetry', k))
     M3 = Mat(3, 3, Real(-1, 1))
